@@ -28,7 +28,7 @@ HIST = {
     'C10': dict(quick=900, thorough=12000, nops=14, nops_thorough=18, alpha='aabbA  \t\n--\r\x0b\x0c\x1c\x85\u2028\xe9', start=2),
     'C11': dict(quick=900, thorough=12000, nops=12, nops_thorough=16, alpha='aabbbA \t\n-', start=1),
     'C12': dict(quick=700, thorough=9000, nops=9, nops_thorough=12, start=1),
-    'C16': dict(quick=700, thorough=9000, nops=8, nops_thorough=12),
+    'C16': dict(quick=700, thorough=9000, nops=8, nops_thorough=12, alpha='abAB -\u0130\u017f\u03c3\u03c2\u212a'),
     'C17': dict(quick=700, thorough=9000, nops=10, nops_thorough=14),
 }
 
@@ -180,7 +180,8 @@ def check_history(prop, tier, seed):
     nops = cfg['nops_thorough'] if tier == 'thorough' else cfg['nops']
     camp = campaign.run_campaign('history', cfg[tier], seed, profile=prop, nops=nops, alpha=cfg.get('alpha'),
                                  maxlen=12 if tier == 'thorough' else 8,
-                                 odd=0.05 if prop in ('C09', 'C08') else 0.0)
+                                 odd=0.08 if prop in ('C09', 'C08', 'C07', 'C04') else 0.0,
+                                 ctrl=0.12 if prop in ('C10', 'C11') else 0.0)
     extra = {}
     if prop in ('C08', 'C09'):
         rt = campaign.run_repo_tests()
@@ -230,14 +231,14 @@ def check_c01(prop, tier, seed):
                                  nops=12 if thorough else 8, maxlen=10 if thorough else 6, more=0.6,
                                  epilogue=('render8',))
     if thorough:
-        cases = history.family_cases() + history.triple_cases()
+        cases = history.family_cases() + history.triple_cases() + history.stack_cases()
     else:
         tri = history.triple_cases()
         rnd = __import__('random').Random(seed)
         groups = sorted(history.GROUP_CODES)
         g1 = groups[seed % len(groups)]
         g2 = groups[(seed // len(groups) + 1 + seed) % len(groups)]
-        cases = history.family_cases([g1] if g1 == g2 else sorted([g1, g2])) + rnd.sample(tri, 400)
+        cases = history.family_cases([g1] if g1 == g2 else sorted([g1, g2])) + rnd.sample(tri, 400) + history.stack_cases()
     fam = campaign.run_campaign('render_family', len(cases), seed + 1, cases=cases, per_shard_max=4000)
     rt = campaign.run_repo_tests()
     merged = merge(camp, fam, rt)
@@ -346,7 +347,7 @@ def check_c11(prop, tier, seed):
     thorough = tier == 'thorough'
     cfg = HIST[prop]
     camp = campaign.run_campaign('history', cfg[tier], seed, profile=prop, nops=cfg['nops_thorough'] if thorough else cfg['nops'],
-                                 alpha=cfg['alpha'], maxlen=12 if thorough else 8)
+                                 alpha=cfg['alpha'], maxlen=12 if thorough else 8, ctrl=0.12)
     maxlen = 7 if thorough else 5
     ntexts = funcs.count_words(['a', 'b'], maxlen)
     fam = campaign.run_campaign('text_family', ntexts * len(textfam.SEPS), seed, per_shard_max=100000)
